@@ -83,12 +83,15 @@ type refTxn struct {
 	st    DBState
 	names map[string]string
 	out   *RefOutcome
+	// undeclared: a named uuid was used that no insert of the transaction declares
+	undeclared bool
 }
 
 func (x *refTxn) resolveAtom(a Atom) (Atom, error) {
 	if a.T == 'u' && strings.HasPrefix(a.S, "@") {
 		u, ok := x.names[a.S[1:]]
 		if !ok {
+			x.undeclared = true
 			return a, fmt.Errorf("unknown named-uuid %s", a.S[1:])
 		}
 		return AUUID(u), nil
@@ -460,6 +463,9 @@ func RefTransact(sch *Schema, before DBState, ops []Op, reported map[int]string)
 	}
 	detail := ""
 	fail := func(kind, class string) {
+		if x.undeclared && detail == "" {
+			detail = "named-uuid:undeclared"
+		}
 		out.Results = append(out.Results, RefResult{Kind: kind, Err: class, Detail: detail})
 		out.OpFailed = true
 	}
